@@ -22,6 +22,7 @@ import (
 	"encoding/json"
 	"fmt"
 	"io"
+	"math/big"
 	"math/rand"
 	"os"
 	"path/filepath"
@@ -183,12 +184,14 @@ func c12Decode(arch []byte) (o c12Obs) {
 	return o
 }
 
-func c12Cksum(d []byte) uint64 {
-	a := uint64(7)
+func c12Cksum(d []byte) string {
+	var s1, s2 uint64
 	for _, b := range d {
-		a = (a*31 + uint64(b) + 1) % 4294967291
+		s1 += uint64(b) + 1
+		s2 += s1
 	}
-	return a
+	v := new(big.Int).Lsh(new(big.Int).SetUint64(s2), 32)
+	return v.Add(v, new(big.Int).SetUint64(s1)).String()
 }
 
 // 0 not exercised, 1 message, 2 error, 3 panic
@@ -675,7 +678,7 @@ func c12ItemCoq(it c12Item) string {
 	if !it.ok {
 		return "EErr"
 	}
-	return fmt.Sprintf("(EOk %s %d %d)", hx(it.cid), len(it.data), c12Cksum(it.data))
+	return fmt.Sprintf("(EOk %s %d %s)", hx(it.cid), len(it.data), c12Cksum(it.data))
 }
 
 func c12RootsCoq(roots [][]byte) string {
@@ -708,18 +711,20 @@ type c12Stats struct {
 }
 
 func c12WriteArchive(o genOpts, a *c12Archive, muts []c12Mut, st *c12Stats, fileNo *int, useResponse bool) error {
+	// Coq spends ~50 us per character of a string literal: bound the text per file, not only the cases
 	const perFile = 500
+	const perFileChars = 110000
 	baseObs := c12Decode(a.bytes)
 	baseSig := c12ObsString(baseObs)
-	for start := 0; start < len(muts); start += perFile {
-		end := start + perFile
-		if end > len(muts) {
-			end = len(muts)
-		}
+	for start := 0; start < len(muts); {
 		names := &c12Names{byKey: map[string]string{}}
 		var items []string
 		var meta []c12Case
-		for k, m := range muts[start:end] {
+		chars := 0
+		end := start
+		for k := 0; start+k < len(muts) && k < perFile && chars < perFileChars; k++ {
+			m := muts[start+k]
+			end = start + k + 1
 			arch := m.apply(a.bytes)
 			obs := c12Decode(arch)
 			ref := c12Walk(arch)
@@ -820,6 +825,13 @@ func c12WriteArchive(o genOpts, a *c12Archive, muts []c12Mut, st *c12Stats, file
 				its = append(its, ic)
 			}
 			items = append(items, fmt.Sprintf("C 0 %s [%s] %s %s [%s] %d", m.coq(), strings.Join(tbl, "; "), orc, eh, strings.Join(its, "; "), msgrc))
+			chars = len(items[len(items)-1])
+			for _, d := range names.defs {
+				chars += len(d)
+			}
+			for _, it := range items {
+				chars += len(it)
+			}
 			cm := c12Case{Id: k, Tag: m.tag, Mut: m.kind, N: m.n, X: int(m.x), Obs: sig, MsgRC: msgrc}
 			if m.kind == "raw" {
 				cm.Raw = hex.EncodeToString(m.raw)
@@ -851,6 +863,7 @@ func c12WriteArchive(o genOpts, a *c12Archive, muts []c12Mut, st *c12Stats, file
 			"bounds": a.bounds, "blocks": len(a.blocks), "roots": len(a.roots)}); err != nil {
 			return err
 		}
+		start = end
 	}
 	return nil
 }
